@@ -83,9 +83,25 @@ Definition why_not (s : state) (o : op) : Z :=
   | SetLocsRange n u t k cl => ok_locs (zrange u n) t k cl s
   | SetLocsCol cs t k cl => ok_locs (set_locs_col_uids cs s) t k cl s
   | SetLocsNames ps t k cl => ok_locs_ids (ids_names s ps) t k cl s
+  | AddColsVVD tabs _ t k _ => match concat tabs with [] => 0%Z | _ => add_ok t k s end
+  | SetColumnName tab p t k _ =>
+      match ids_name s p true, tab with [], _ :: _ => add_ok t k s | _, _ => 0%Z end
   | _ => 0%Z
   end.
 Definition accepted (s : state) (o : op) : Prop := why_not s o = 0%Z.
+(* a script (creator) is accepted when each of its calls is, in the state where it is made *)
+Fixpoint script_why (s : state) (sc : list op) : Z :=
+  match sc with
+  | [] => 0%Z
+  | o :: r => let c := why_not s o in if (c =? 0)%Z then script_why (step s o) r else c
+  end.
+Definition why_not_cmd (g : gstate) (c : cmd) : Z :=
+  match c with
+  | Do o => if fst g && is_sample_edit o then 0%Z else why_not (snd g) o
+  | SubGrid _ _ _ _ _ => if fst g then let (sc, s0) := cmd_script (snd g) c in script_why s0 sc else 0%Z
+  | _ => let (sc, s0) := cmd_script (snd g) c in script_why s0 sc
+  end.
+Definition accepted_cmd (g : gstate) (c : cmd) : Prop := why_not_cmd g c = 0%Z.
 
 (* ------------------------------------------------------------------ the invariant on observations *)
 Definition val_eqb (a b : val) : bool :=
@@ -150,6 +166,12 @@ Definition chk_cols (o : obs) : bool :=
   forallb (fun c => list_eqb val_eqb (nth c (o_cols_uid o) []) (nth c (o_cols o) [])
                     && ((fst (colloc_at o c) <? 0)%Z
                         || list_eqb val_eqb (nth c (o_cols_loc o) []) (nth c (o_cols o) []))) (seq 0 (o_ncol o)).
+(* the compressed column read through the selection has as many cells as there are active samples. bit 1024
+   (not part of check_obs: the library keeps a sample in getColumn*(useSel) when its selection value is exactly 1 but
+   counts it active when the value is not 0; the two agree on selections holding only 0, 1 or undefined values) *)
+Definition chk_selcols (o : obs) : bool :=
+  forallb (fun col => length col =? o_nact o) (o_cols_selc o)
+  && forallb (fun col => length col =? o_nech o) (o_cols_sel o).
 Definition check_obs (o : obs) : Z :=
   (bit (chk_names o) 1 + bit (chk_sizes o) 2 + bit (chk_uid o) 4 + bit (chk_byname o) 8 + bit (chk_roles o) 16
    + bit (chk_rolecount o) 32 + bit (chk_active o) 64 + bit (chk_cols o) 128)%Z.
@@ -180,23 +202,35 @@ Fixpoint lookup_uid (u : Z) (l : list (Z * list val)) : option (list val) :=
   | [] => None
   | p :: r => if (fst p =? u)%Z then Some (snd p) else lookup_uid u r
   end.
-(* rank of sample e after the operation (deleteSample shifts the later ones) *)
+(* rank of sample e after the operation (deleteSample(s) shift the later ones) *)
+Fixpoint remap_dels (es : list Z) (ne : nat) (e : nat) : option nat :=
+  match es with
+  | [] => Some e
+  | d :: r =>
+      match zidx d ne with
+      | None => Some e
+      | Some d' => if Nat.eqb e d' then None else remap_dels r (ne - 1) (if e <? d' then e else e - 1)
+      end
+  end.
 Definition remap_sample (op0 : op) (nechB : nat) (e : nat) : option nat :=
   match op0 with
-  | DelSample d =>
-      match zidx d nechB with
-      | Some d' => if e <? d' then Some e else if Nat.eqb e d' then None else Some (e - 1)
-      | None => Some e
-      end
+  | DelSample d => remap_dels [d] nechB e
+  | DelSamples es => remap_dels (sort_desc es) nechB e
   | _ => Some e
   end.
-(* cells an operation may write: setArray its cell, setValue(name) the sample in the named column (here:
-   the whole sample row, names being resolved by the library), duplicateColumnByUID the target column *)
-Definition addressed (op0 : op) (u : Z) (e : nat) : bool :=
+(* cells an operation may write, [r] resolving a column index to the uid of that column before the call:
+   setArray its cell, setValue(name) / setFromLocator the sample row (names and roles being resolved by the library),
+   setValueByColIdx its cell, duplicateColumnByUID / setColumnBy* the target column, setColumn(name) anything *)
+Definition addressed (r : Z -> Z) (op0 : op) (u : Z) (e : nat) : bool :=
   match op0 with
   | SetArray e' u' _ => (u =? u')%Z && (Z.of_nat e =? e')%Z
   | SetValue _ e' _ => (Z.of_nat e =? e')%Z
+  | SetFromLoc _ e' _ _ => (Z.of_nat e =? e')%Z
+  | SetValueCol e' c _ => (u =? r c)%Z && (Z.of_nat e =? e')%Z
   | DupCol _ uout => (u =? uout)%Z
+  | SetColumnUID u' _ _ => (u =? u')%Z
+  | SetColumnCol c _ _ => (u =? r c)%Z
+  | SetColumnName _ _ _ _ _ => true
   | _ => false
   end.
 Definition frame_ok (op0 : op) (b a : obs) : bool :=
@@ -206,7 +240,8 @@ Definition frame_ok (op0 : op) (b a : obs) : bool :=
      | Some colA =>
          forallb (fun e => match remap_sample op0 (o_nech b) e with
                            | None => true
-                           | Some e' => addressed op0 (fst p) e
+                           | Some e' => addressed (fun c => if (0 <=? c)%Z then znth (o_col2uid b) (Z.to_nat c) else (-1)%Z)
+                                                  op0 (fst p) e
                                         || val_eqb (nth e' colA None) (nth e (snd p) None)
                            end) (seq 0 (o_nech b))
      end) (uid_cols b).
